@@ -444,6 +444,51 @@ func init() {
 
 // ---------------------------------------------------------------- C08
 
+// familyIntruders: listed ids that are no members of id's version family but carry a member's text as a prefix or sort
+// between its members (they split the family into several runs of a sorted list)
+var intrudersCache = map[int][]string{}
+
+func familyIntruders(id string) []string {
+	p, ok := tablePos(id)
+	if !ok {
+		return nil
+	}
+	if v, ok := intrudersCache[p.fam]; ok {
+		return v
+	}
+	member := map[string]bool{}
+	var members []string
+	for _, g := range tblRanges[p.fam] {
+		for _, x := range g {
+			member[x] = true
+			members = append(members, x)
+		}
+	}
+	sort.Strings(members)
+	stem := func(x string) string {
+		x = strings.TrimSuffix(x, "+")
+		x = strings.TrimSuffix(x, "-only")
+		return strings.TrimSuffix(x, "-or-later")
+	}
+	var out []string
+	for _, x := range append(append([]string{}, tblActive...), tblDeprecated...) {
+		if member[x] || member[stem(x)] || strings.HasSuffix(x, "+") {
+			continue
+		}
+		near := x > members[0] && x < members[len(members)-1]
+		for _, m := range members {
+			if strings.HasPrefix(x, stem(m)) {
+				near = true
+			}
+		}
+		if near {
+			out = append(out, x)
+		}
+	}
+	intrudersCache[p.fam] = out
+	return out
+}
+
 // contexts for a substitution: the term alone or inside a tree, on the expression side or on the list side
 func c08Contexts(x, y *term, partner *term) *failure {
 	// validity must agree
@@ -468,6 +513,19 @@ func c08Contexts(x, y *term, partner *term) *failure {
 		// the expression must get the error (a literal-match shortcut answers before the list is validated)
 		{"literal-beside-invalid", func(s string) string { return s }, func(string) []string { return []string{p, x.text, "NOT-A-LICENSE"} }},
 		{"literal-beside-compound", func(s string) string { return s }, func(string) []string { return []string{x.text, "MIT AND ISC"} }},
+	}
+	if intr := familyIntruders(x.base); len(intr) > 0 && x.exc == "" {
+		// the spelling as a list entry among ids that sort between the members of its family without belonging to it, and
+		// another member behind them (a family cut out of the sorted list as ONE run loses the members of the other run)
+		i1, i2 := pick(intr), pick(intr)
+		fam := sameFamilyIDs(x.base)
+		other := x.base
+		if len(fam) > 0 {
+			other = strings.TrimSuffix(pick(fam), "+")
+		}
+		ctxs = append(ctxs,
+			ctx{"list-among-intruders", func(string) string { return p }, func(s string) []string { return []string{s, i1, other, i2} }},
+			ctx{"expr-against-intruders", func(s string) string { return s }, func(string) []string { return []string{p, i1, other, i2} }})
 	}
 	if x.exc != "" {
 		// the same id with TWO different exceptions in the list, the expression carrying one of them in either spelling
@@ -1059,6 +1117,21 @@ func init() {
 			}
 		}
 		sample(map[string]interface{}{"id": "Apache-2.0", "variants": variants("Apache-2.0")})
+		// LAST: the casing ExtractLicenses reports is the LISTS' casing also after a caller has re-cased the slices the table
+		// getters handed out
+		if f := gettersHandOutCopies(); f != nil {
+			fail(*f)
+		} else {
+			for _, id := range []string{tblActive[0], tblActive[len(tblActive)/2], "MIT", "Apache-2.0", "GPL-2.0-only"} {
+				x := implExt(strings.ToUpper(id))
+				res.Evaluations++
+				if x.err != nil || x.panicv != nil || len(x.list) != 1 || x.list[0] != id {
+					fail(failure{Stream: "oracle", What: "after a caller wrote into the getters' results, ExtractLicenses no longer reports the list's own casing", Case: &kase{Expr: strings.ToUpper(id), ExprHex: hx(strings.ToUpper(id)), Extra: map[string]string{"history": "write into the getters' results"}}, Impl: x.String(), Expected: "ok " + id})
+					break
+				}
+			}
+		}
+		loadTables()
 		res.Exhaustive = true
 	}
 	replays["C09"] = func(k *kase) *failure {
